@@ -211,3 +211,32 @@ Definition b_nontrivial (c : bcase) : bool :=
 
 Fixpoint bids_where (f : bcase -> bool) (l : list bcase) : list N :=
   match l with [] => [] | c :: r => ((if f c then [bc_id c] else []) ++ bids_where f r)%list end.
+
+(* ---- C08: call histories on one generator ---- *)
+From CE Require Import BrainSpec.
+Definition dummy_case : bcase := mkBC 0 [] (RI32 1) 0 0%float 1%float 0%float None.
+Definition req_of_case (c : bcase) : option (request (F:=float)) :=
+  match to_bcomp (bc_ents c) with
+  | Some b => Some (mkReq b (model_order c) (bc_base c) (bc_charge c) (bc_carrier c))
+  | None => None
+  end.
+Fixpoint run_model_hist (pool : list bcase) (ch : cache (F:=float)) (h : list nat) : list (option fpeaks) :=
+  match h with
+  | [] => []
+  | i :: r => match req_of_case (nth i pool dummy_case) with
+              | Some q => let '(o, ch') := gen_call NumF ch q in o :: run_model_hist pool ch' r
+              | None => None :: run_model_hist pool ch r
+              end
+  end.
+Fixpoint all2o (f : option fpeaks -> option fpeaks -> bool) (a b : list (option fpeaks)) : bool :=
+  match a, b with [], [] => true | x :: r, y :: s => f x y && all2o f r s | _, _ => false end.
+
+Record ghist := mkGH { gh_id : N; gh_h : list nat; gh_outs : list (option fpeaks) }.
+(* the model's generator reproduces the implementation's generator along the history *)
+Definition gh_tie (cmp : float -> float -> bool) (pool : list bcase) (g : ghist) : bool :=
+  all2o (out_agree cmp) (run_model_hist pool [] (gh_h g)) (gh_outs g).
+(* the property: every call returns what the stateless function returns for that request (same length, 1e-12) *)
+Definition gh_pure (cmp : float -> float -> bool) (pool : list bcase) (g : ghist) : bool :=
+  all2o (out_agree cmp) (map (fun i => bc_out (nth i pool dummy_case)) (gh_h g)) (gh_outs g).
+Fixpoint ghids_where (f : ghist -> bool) (l : list ghist) : list N :=
+  match l with [] => [] | c :: r => ((if f c then [gh_id c] else []) ++ ghids_where f r)%list end.
